@@ -56,6 +56,9 @@ def formatter_for(family):
         return graphtage.csv.CSVFormatter.DEFAULT_INSTANCE
     if family == "plist":
         return graphtage.plist.PLISTFormatter.DEFAULT_INSTANCE
+    if family == "py":
+        from graphtage import pydiff
+        return pydiff.PyDiffFormatter.DEFAULT_INSTANCE
     raise ValueError(family)
 
 
@@ -143,9 +146,13 @@ class C05:
         script = sched.serialise(root, paths)
         ann = sched.annotations(ret, paths)
         ec = ret.edited_cost()
-        log.add("ref", b.lower_bound, b.upper_bound, core.digest_of(script), ec)
+        # Rendering is a driver of the engine too.  A formatter that cannot print this kind of tree at all fails the
+        # same way under every setting - that is some other property's business; C05 only demands that the outcome
+        # does not depend on the settings.
+        rout = render_outcome(wl["family"], ret, False, False, False)
+        log.add("ref", b.lower_bound, b.upper_bound, core.digest_of(script), ec, rout)
         return {"cost": (b.lower_bound, b.upper_bound), "script": script, "ann": ann, "edited_cost": ec,
-                "compound": isinstance(root, CompoundEdit), "equal": wl["a"] == wl["b"]}
+                "compound": isinstance(root, CompoundEdit), "equal": wl["a"] == wl["b"], "render": rout}
 
     # ------------------------------------------------------------------ execution
     def run_case(self, case):
@@ -237,7 +244,12 @@ class C05:
             raise Violation("annotations-differ", "scheduled",
                             f"EditedTreeNode annotations differ from the reference:\n got {str(ann)[:600]}\n ref {str(ref['ann'])[:600]}")
         ansi_color = None if run["tty"] else bool(run["ansi"])   # None: auto-detect from isatty(), as the CLI does
-        text = render(wl["family"], s.ret, ansi_color, run["tty"], run["render_quiet"])
+        rout = render_outcome(wl["family"], s.ret, ansi_color, run["tty"], run["render_quiet"])
+        if rout != ref["render"]:
+            raise Violation("render-outcome-differs", "scheduled",
+                            f"rendering with ansi_color={ansi_color} tty={run['tty']} quiet={run['render_quiet']} after "
+                            f"this schedule ended as {rout!r}, but as {ref['render']!r} after the reference run")
+        text = ""
         if run["ansi"]:
             counters["probe.rendered_colour"] = counters.get("probe.rendered_colour", 0) + 1
         if run["tty"]:
@@ -323,6 +335,21 @@ class C05:
                     yield dict(case, runs=[dict(r, **{k: simple})])
         elif len(runs) == 1 and runs[0].get("clock") != "frozen":
             yield dict(case, runs=[dict(runs[0], clock="frozen")])
+
+
+def render_outcome(family, ret, ansi, tty, quiet):
+    """'ok' or the exception site; harness exceptions propagate."""
+    try:
+        render(family, ret, ansi, tty, quiet)
+        return "ok"
+    except core.RunTimeout:
+        raise
+    except Exception as e:
+        site = core.graphtage_site(e)
+        if "outside-graphtage" in site and not isinstance(e, RecursionError):
+            raise
+        gprinter.ANSI_CONTEXT_STACK.clear()
+        return site
 
 
 def _leaves(script):
